@@ -621,7 +621,11 @@ func (x *Exec) callFunc(st *State, call *ast.CallExpr, fn *types.Func, recv *Val
 		for _, a := range all {
 			if t, ok := a.GoT.(types.Type); ok && t != nil {
 				if pt, isPtr := t.Underlying().(*types.Pointer); isPtr {
-					// the library may write the object the pointer refers to (not other objects of that type)
+					// the library may write the object the pointer refers to (not other objects of that type);
+					// opaque library objects carry no modelled state
+					if inf := x.vc.info(x.vc.sortOf(pt.Elem())); inf != nil && inf.Kind == kOpaque {
+						continue
+					}
 					nv := x.havocVal(st, "written", pt.Elem())
 					x.storeRef(st, a, pt.Elem(), nv)
 					x.vc.note("library call " + key + ": the " + pt.Elem().String() + " object passed by pointer is unconstrained afterwards")
